@@ -245,6 +245,79 @@ var funcRegistry = map[string]interface{}{
 	}),
 }
 
+func ifaceOf(v reflect.Value) interface{} {
+	if !v.IsValid() {
+		return nil
+	}
+	return v.Interface()
+}
+
+func init() {
+	// jet.Func wrappers around the exported Runtime API, acting on the call site's runtime
+	two := func(name string, k func(rt *jet.Runtime, n string, v interface{})) {
+		funcRegistry[name] = jet.Func(func(a jet.Arguments) reflect.Value {
+			a.RequireNumOfArguments(name, 2, 2)
+			n := a.Get(0)
+			v := a.Get(1)
+			k(a.Runtime(), n.String(), ifaceOf(v))
+			return reflect.Value{}
+		})
+	}
+	two("apiLet", func(rt *jet.Runtime, n string, v interface{}) { rt.Let(n, v) })
+	two("apiSet", func(rt *jet.Runtime, n string, v interface{}) {
+		if err := rt.Set(n, v); err != nil {
+			panic(err)
+		}
+	})
+	two("apiSetOrLet", func(rt *jet.Runtime, n string, v interface{}) { rt.SetOrLet(n, v) })
+	two("apiLetGlobal", func(rt *jet.Runtime, n string, v interface{}) { rt.LetGlobal(n, v) })
+	funcRegistry["apiResolve"] = jet.Func(func(a jet.Arguments) reflect.Value {
+		a.RequireNumOfArguments("apiResolve", 1, 1)
+		return a.Runtime().Resolve(a.Get(0).String())
+	})
+	funcRegistry["apiContext"] = jet.Func(func(a jet.Arguments) reflect.Value {
+		a.RequireNumOfArguments("apiContext", 0, 0)
+		return a.Runtime().Context()
+	})
+	funcRegistry["apiYield"] = jet.Func(func(a jet.Arguments) reflect.Value {
+		a.RequireNumOfArguments("apiYield", 1, 2)
+		n := a.Get(0).String()
+		var ctx interface{}
+		if a.NumOfArguments() == 2 {
+			ctx = ifaceOf(a.Get(1))
+		}
+		a.Runtime().YieldBlock(n, ctx)
+		return reflect.Value{}
+	})
+	// Arguments accessors next to a reflected function receiving the same call
+	funcRegistry["refl"] = func(xs ...interface{}) []interface{} {
+		if xs == nil {
+			return []interface{}{}
+		}
+		return xs
+	}
+	funcRegistry["recset"] = jet.Func(func(a jet.Arguments) reflect.Value {
+		out := make([]interface{}, 0, a.NumOfArguments())
+		for i := 0; i < a.NumOfArguments(); i++ {
+			out = append(out, a.IsSet(i))
+		}
+		return reflect.ValueOf(out)
+	})
+	funcRegistry["parse3"] = jet.Func(func(a jet.Arguments) reflect.Value {
+		var i int
+		var s string
+		var v interface{}
+		if err := a.ParseInto(&i, &s, &v); err != nil {
+			panic(err)
+		}
+		if a.NumOfArguments() != 3 {
+			panic(fmt.Errorf("parse3 needs 3 arguments"))
+		}
+		return reflect.ValueOf(fmt.Sprint(i, "/", s, "/", v))
+	})
+	funcRegistry["refl3"] = func(i int, s string, v interface{}) string { return fmt.Sprint(i, "/", s, "/", v) }
+}
+
 var safeWriters = map[string]jet.SafeWriter{
 	"brackets": func(w io.Writer, b []byte) { w.Write(append(append([]byte{'['}, b...), ']')) },
 }
